@@ -44,10 +44,17 @@ def lifecycle(trace):
     """seq numbers of the events that end the 'connection is up' period"""
     cs = calls(trace)
     connect = next((c for c in cs if c["op"][0] == "connect"), None)
-    close_call = min([c["call"] for c in cs if c["op"][0] == "close"], default=None)
+    # the scenario interpreter ends every session with a close() of its own (ctx "...-final"): that is the end of the observation,
+    # not a close() "during" the session
+    close_call = min([c["call"] for c in cs if c["op"][0] == "close" and not str(c["ctx"]).endswith("-final")], default=None)
+    final_close = min([c["call"] for c in cs if c["op"][0] == "close" and str(c["ctx"]).endswith("-final")], default=None)
     fault = first_seq(trace, lambda e: e["k"] in ("fault_injected", "write_fault", "read_fault"))
     rexc = first_seq(trace, lambda e: e["k"] == "thread_exc")
-    return {"connect": connect, "close_call": close_call, "fault": fault, "thread_exc": rexc}
+    _fc = min([c["call"] for c in cs if c["op"][0] == "close" and str(c["ctx"]).endswith("-final")], default=None)
+    if rexc is not None and _fc is not None and rexc > _fc:
+        rexc = None
+    final_t = next((c["t_call"] for c in cs if c["call"] == final_close), None) if final_close is not None else None
+    return {"connect": connect, "close_call": close_call, "fault": fault, "thread_exc": rexc, "final_close": final_close, "final_t": final_t}
 
 
 # ------------------------------------------------------------------------------------------------ C01
@@ -63,6 +70,15 @@ def mon_c01(spec, run):
             continue
         wire_lines.append((t, d[:-2].decode("utf-8", "replace"), seq))
     cs = [c for c in calls(tr) if text_of(c["op"]) is not None]
+    for c in cs:
+        if c["exc"] is not None:
+            bad.append(("api-raises", f"{c['op'][0]}({text_of(c['op'])[:60]!r}) raised {c['exc']}: {c.get('msg')}"))
+            break
+    if lc["close_call"] is None and lc["fault"] is None:
+        for e in tr:
+            if e["k"] == "thread_exc" and e["th"][:1] in ("S", "R") and (lc["final_close"] is None or e["seq"] < lc["final_close"]):
+                bad.append(("thread-died", f"library thread {e['th']} died with {e['exc']}: {e.get('msg')} while the connection was up; nothing submitted afterwards can reach the wire"))
+                break
     by_ctx = {}
     all_texts = set()
     for c in sorted(cs, key=lambda c: c["call"]):
@@ -72,35 +88,53 @@ def mon_c01(spec, run):
     for t, line, seq in wire_lines:
         if line != PROBE and line not in all_texts:
             bad.append(("foreign", f"the library wrote {line[:80]!r}, which nobody submitted and is not a keep-alive probe"))
+    owner = {}
+    shared = set()
+    for ctx, lst in by_ctx.items():
+        for c in lst:
+            t = text_of(c["op"])
+            if t in owner and owner[t] != ctx:
+                shared.add(t)
+            owner[t] = ctx
     for ctx, lst in by_ctx.items():
         texts = [text_of(c["op"]) for c in lst]
-        if len(set(texts)) != len(texts) or PROBE in texts:
+        if PROBE in texts or any(t in shared for t in texts):
             continue   # identity on the wire ambiguous for this caller: not checked
-        mine = [line for _, line, _ in wire_lines if line in set(texts)]
-        if len(set(mine)) != len(mine):
-            dup = next(x for x in mine if mine.count(x) > 1)
-            bad.append(("twice", f"command {dup[:80]!r} of caller {ctx} was written {mine.count(dup)} times"))
+        tset = set(texts)
+        mine = [line for _, line, _ in wire_lines if line in tset]
+        # match every wire line to the earliest not yet matched submission with that text (repeated submissions allowed)
+        used = [False] * len(texts)
+        pos = []
+        ok = True
+        for line in mine:
+            k = next((i for i, t in enumerate(texts) if t == line and not used[i]), None)
+            if k is None:
+                bad.append(("twice", f"command {line[:80]!r} of caller {ctx} was written {mine.count(line)} times but submitted {texts.count(line)} time(s)"))
+                ok = False
+                break
+            used[k] = True
+            pos.append(k)
+        if not ok:
             continue
-        # order: the wire subsequence must follow submission order
-        pos = [texts.index(x) for x in mine]
         if pos != sorted(pos):
             bad.append(("order", f"commands of caller {ctx} appear on the wire out of submission order: {mine[:6]}"))
             continue
-        # completeness: a command written after a later one of the same caller was skipped = "gap" (prefix property)
         if pos and pos != list(range(len(pos))) and lc["close_call"] is None and lc["fault"] is None and lc["thread_exc"] is None:
             missing = texts[min(set(range(max(pos) + 1)) - set(pos))]
             bad.append(("lost", f"command {missing[:80]!r} of caller {ctx} never reached the wire although later ones did"))
     # quiescence: connection stayed up and idle -> everything submitted while up has been written
     if lc["connect"] and lc["connect"]["exc"] is None and lc["close_call"] is None and lc["fault"] is None and lc["thread_exc"] is None and run.status == "all-finished":
-        end_t = run.now
+        end_t = lc["final_t"] if lc["final_t"] is not None else run.now
         up_from = lc["connect"]["ret"]
-        pend = [c for c in cs if c["call"] > up_from and c["ret"] is not None and c["exc"] is None]
+        pend = [c for c in cs if c["call"] > up_from and c["ret"] is not None and c["exc"] is None and (lc["final_close"] is None or c["call"] < lc["final_close"])]
         if pend:
             last_submit = max(c["t_ret"] for c in pend)
-            if end_t - last_submit >= (len(pend) + 3) * SPACING_US:
-                wl = [l for _, l, _ in wire_lines]
+            slack = int(sum(float(v) for v in spec.get("slow_writes", {}).values()) * 1_000_000)
+            if end_t - last_submit >= (len(pend) + 6) * SPACING_US + slack:
+                wl = [l for _, l, s_ in wire_lines if lc["final_close"] is None or s_ < lc["final_close"]]
+                subm = [text_of(c["op"]) for c in pend]
                 for c in pend:
-                    if text_of(c["op"]) not in wl:
+                    if wl.count(text_of(c["op"])) < subm.count(text_of(c["op"])) and text_of(c["op"]) != PROBE:
                         bad.append(("not-written", f"command {text_of(c['op'])[:80]!r} submitted by {c['ctx']} at t={c['t_call'] / 1e6:.3f}s was never written although the connection stayed up and idle for {(end_t - last_submit) / 1e6:.1f}s"))
                         break
     return bad
@@ -124,15 +158,21 @@ def mon_c12(spec, run):
     lc = lifecycle(tr)
     if not lc["connect"] or lc["connect"]["exc"] is not None:
         return bad
-    end_seq = min([x for x in (lc["close_call"], lc["fault"], lc["thread_exc"]) if x is not None], default=None)
+    end_seq = min([x for x in (lc["close_call"], lc["fault"], lc["thread_exc"], lc["final_close"]) if x is not None], default=None)
     end_t = next((e["t"] for e in tr if e["seq"] == end_seq), run.now) if end_seq is not None else run.now
+    if lc["close_call"] is None and lc["fault"] is None and lc["thread_exc"] is not None:
+        e = next(x for x in tr if x["seq"] == lc["thread_exc"])
+        if e["th"][:1] in ("S", "R") and (lc["final_close"] is None or e["seq"] < lc["final_close"]):
+            bad.append(("thread-died", f"library thread {e['th']} died with {e['exc']}: {e.get('msg')} while connected: no keep-alive can be sent any more"))
     up = [(t, d, s) for t, d, s in ws if end_seq is None or s < end_seq]
     # the connection is "made" when the reader thread started its protocol: first write or connect return
     t0 = up[0][0] if up else lc["connect"]["t_ret"]
     times = [t for t, _, _ in up] + [end_t]
     prev = min(t0, lc["connect"]["t_ret"])
+    # a write that blocks inside the driver (slow-write scenarios) legitimately delays what follows by its duration
+    slack = int(max([0] + [float(v) for v in spec.get("slow_writes", {}).values()]) * 1_000_000)
     for t in times:
-        if t - prev > KA_US + SPACING_US:
+        if t - prev > KA_US + SPACING_US + slack:
             bad.append(("gap", f"nothing was transmitted between {prev / 1e6:.3f}s and {t / 1e6:.3f}s ({(t - prev) / 1e6:.3f}s > 30.1s) while connected"))
             break
         prev = t
@@ -141,7 +181,7 @@ def mon_c12(spec, run):
         first_two = [d for _, d, _ in up[:2]]
         if len(first_two) < 2 or any(d != (PROBE + "\r\n").encode() for d in first_two):
             bad.append(("probes", f"the first two transmissions after connecting are {first_two!r}, expected two keep-alive probes"))
-        elif up[1][0] - up[0][0] > SPACING_US + 1000:
+        elif up[1][0] - up[0][0] > SPACING_US + 1000 + slack:
             bad.append(("probes", f"the second start-up probe came {(up[1][0] - up[0][0]) / 1000:.1f} ms after the first"))
     return bad
 
@@ -271,7 +311,10 @@ def mon_c09_msg(spec, run):
                 bad.append(("after-close", f"message callback {e['cb']} was started after close() had returned"))
     dead_seq = min([x for x in (lc["fault"], lc["thread_exc"]) if x is not None], default=None)
     seen_lines = set()
+    all_lines = [x[2] for x in lines_by_read(tr)]
     for rseq, wend, text in lines_by_read(tr):
+        if all_lines.count(text) > 1:
+            continue            # the same text arrived more than once: deliveries cannot be attributed to one arrival
         m = re.fullmatch(r"@([^:]+?):([^=]+?)=(.*)", text, re.S)
         if not m:
             continue
